@@ -168,7 +168,7 @@ let run_outstation_engine (s : script) : string list =
         | "add" :: _ | "update" :: _ -> Some EDbChange
         | ["handler"; a; b] -> Some (EHandler (nn a, nn b))
         | ["appiin"; v] -> Some (EAppIin (nn v))
-        | ["disconnect"] -> Some EDisconnect
+        | ["disconnect"] | ["bounce"] -> Some EDisconnect
         | _ -> failwith ("bad op " ^ String.concat " " e.op) in
       match event with
       | None -> ()
